@@ -262,6 +262,10 @@ func Run(c string) string {
 			return "err other"
 		}
 		return "ok " + EncScript(t) + " " + lib.Bytes(b) + " " + showParse(string(b))
+	case f[0] == "printhist" && len(f) == 2:
+		return runPrintHist(f[1])
+	case f[0] == "parsehist" && len(f) == 2:
+		return runParseHist(f[1])
 	case f[0] == "large" && len(f) == 3:
 		return largeCase(f[1], lib.Atoi(f[2]))
 	case f[0] == "deepparse" && len(f) == 2:
@@ -471,6 +475,8 @@ func OracleC03(c, res string) string {
 		return "panic: " + res
 	}
 	switch f[0] {
+	case "parsehist":
+		return oracleParseHist(c, res)
 	case "large":
 		return OracleLarge(c, res)
 	case "parse", "parsex", "load":
@@ -621,6 +627,10 @@ func OracleC07(c, res string) string {
 		return "panic: " + res
 	}
 	switch f[0] {
+	case "printhist":
+		return oraclePrintHist(c, res)
+	case "parsehist":
+		return oracleParseHist(c, res)
 	case "large":
 		return OracleLarge(c, res)
 	case "print":
